@@ -51,6 +51,8 @@ func main() {
 		os.Exit(cmdReplay(os.Args[2], true))
 	case "selftest":
 		os.Exit(cmdSelftest(os.Args[2:]))
+	case "racework":
+		os.Exit(cmdRaceWork(os.Args[2:]))
 	case "one":
 		os.Exit(cmdOne(os.Args[2:]))
 	case "list":
@@ -430,6 +432,20 @@ func cmdCheck(id, tier string) int {
 		vioOut = append(vioOut, map[string]interface{}{"class": min.Class(), "replay": rp, "message": firstLines(min.Msg, 6)})
 		exit = 1
 	}
+	if id == "C20" {
+		rs := raceSupplement(tier, master, known)
+		raceEvidence = rs.evidence
+		for _, l := range rs.lines {
+			fmt.Println(l)
+		}
+		knownHit = append(knownHit, rs.knownHit...)
+		for _, v := range rs.violations {
+			unknown = append(unknown, v["class"].(string))
+			vioOut = append(vioOut, v)
+			exit = 1
+		}
+		infra = append(infra, rs.infra...)
+	}
 	wall := time.Since(start).Seconds()
 	writeEvidence(p, tier, master, agg, hashes, wall, total, W, vioOut, knownHit)
 	for _, name := range expectedProbes[id] {
@@ -451,6 +467,9 @@ func cmdCheck(id, tier string) int {
 }
 
 var expectedProbes = map[string][]string{}
+
+// raceEvidence is the race supplement's section of the C20 evidence file (nil for other checks).
+var raceEvidence map[string]interface{}
 
 type tailWriter struct {
 	b   *strings.Builder
@@ -532,6 +551,7 @@ type ReplayFile struct {
 	Minimised    bool             `json:"minimised"`
 	Reexecutions int              `json:"reexecutions"`
 	Sample       interface{}      `json:"sample,omitempty"`
+	Race         *RaceReplay      `json:"race,omitempty"` // race supplement (C20): re-run this seed on real goroutines
 	Trace        []string         `json:"trace,omitempty"`
 	History      []interface{}    `json:"history,omitempty"`
 }
@@ -543,6 +563,14 @@ func outRoot() string {
 		return v
 	}
 	return verifRoot
+}
+
+// RaceReplay identifies a report of the race supplement: the seed of the real-goroutine workload
+// and the signature (first repository frame of each conflicting access) to look for.
+type RaceReplay struct {
+	Seed      int64  `json:"seed"`
+	Seconds   int    `json:"seconds"`
+	Signature string `json:"signature"`
 }
 
 func replayDir(id string) string {
@@ -606,6 +634,19 @@ func cmdReplay(path string, verbose bool) int {
 	if p == nil {
 		fmt.Fprintln(os.Stderr, "unknown property", rf.Property)
 		return 2
+	}
+	if rf.Race != nil {
+		// race supplement: not a tape; the seed is re-run on real goroutines in the -race binary
+		if raceBin() == "" {
+			fmt.Fprintln(os.Stderr, "INFRASTRUCTURE ERROR: no race-detector binary (run through bin/check)")
+			return 2
+		}
+		if replayRace(rf.Race) {
+			fmt.Printf("replay: %s\nVIOLATION property=%s replay=%s\n", rf.Class, rf.Property, path)
+			return 1
+		}
+		fmt.Printf("replay: the report %q did not recur in %d s of re-running seed %d\n", rf.Race.Signature, rf.Race.Seconds, rf.Race.Seed)
+		return 0
 	}
 	r, err := runReplay(p, &rf, true)
 	if err != nil {
